@@ -21,7 +21,7 @@ PROPERTY = 'C07'
 RULE = ('case = (stream, cut set, encoding, error policy, maxread, transport); every case executed once; non-trivial = '
         'at least one cut (or a maxread boundary) falls inside a multi-byte character; distinct by construction')
 ASSUMPTIONS = ['streams of <= 12 bytes that do not end inside a character; <= 2 cuts (quick) / <= 3 cuts (thorough)',
-               'sync path only here; the asyncio decode path is exercised by C14']
+               'asyncio path: awaited expect calls on the real event loop with a controlled selector, on a pty and on a socket descriptor']
 REQUIRED_FLAGS = {'cut_inside_char': 1, 'bytes_mode': 1, 'invalid_bytes_replaced': 1}
 
 
@@ -59,6 +59,10 @@ def tasks(tier):
     for tr in TR.NAMES:
         for i in range(len(STREAMS)):
             out.append(dict(transport=tr, stream=i, tier=tier))
+    # the asyncio path (real event loop + real read-pipe transport, see mc/aio.py) on a pty and on a socket fd
+    for tr in ('pty-select', 'fd-select'):
+        for i in range(len(STREAMS)):
+            out.append(dict(transport=tr, stream=i, tier=tier, aio=True))
     return out
 
 
@@ -67,7 +71,11 @@ def run_case(task, enc, raw, errors, cuts, maxread):
     link = None
     obs = {}
     viol = None
+    loop = None
     try:
+        if task.get('aio'):
+            from mc import aio
+            aio.install()
         kw = dict(timeout=5, maxread=maxread, encoding=enc, codec_errors=errors)
         link = TR.Link(env, task['transport'], **kw)
         sp = link.sp
@@ -91,11 +99,23 @@ def run_case(task, enc, raw, errors, cuts, maxread):
         # an expect in the middle: the second character of the expected text
         mid = want[1:2] if len(want) > 2 else None
         got = empty
+        loop = None
+        if task.get('aio'):
+            import asyncio
+            from mc import aio
+            loop = aio.new_loop()
+            asyncio.set_event_loop(loop)
         try:
             if mid is not None and mid not in (b'(', '(') and mid.strip():
-                sp.expect_exact(mid)
+                if loop is not None:
+                    loop.run_until_complete(sp.expect_exact(mid, async_=True))
+                else:
+                    sp.expect_exact(mid)
                 got += sp.before + sp.after
-            sp.expect(EOF)
+            if loop is not None:
+                loop.run_until_complete(sp.expect(EOF, async_=True))
+            else:
+                sp.expect(EOF)
             got += sp.before
         except TIMEOUT as e:
             viol = ('timeout', 'TIMEOUT before EOF, before=%r' % (sp.before,))
@@ -125,6 +145,18 @@ def run_case(task, enc, raw, errors, cuts, maxread):
     except Exception as e:
         viol = ('exception', 'raised %r' % (e,))
     finally:
+        if task.get('aio'):
+            try:
+                import asyncio
+                from mc import aio
+                tr_ = getattr(link.sp, 'async_pw_transport', None) if link is not None else None
+                if tr_:
+                    tr_[1].abort()
+                if loop is not None:
+                    aio.close_loop(loop)
+                asyncio.set_event_loop(None)
+            except Exception:
+                pass
         if link is not None:
             link.finish()
         else:
@@ -173,7 +205,7 @@ def run_task(task):
             acc.flags['invalid_bytes_replaced'] += 1
         acc.outcomes['%s/%s/%s' % (enc, errors, 'viol' if viol else 'ok')] += 1
         if viol:
-            key = '%s:%s:%s:%s' % (task['transport'], enc, errors, viol[0])
+            key = '%s%s:%s:%s:%s' % (task['transport'], '+asyncio' if task.get('aio') else '', enc, errors, viol[0])
             acc.violation(key, 'stream %r cuts %r maxread %d: %s' % (raw, cuts, maxread, viol[1]),
                           dict(task=task, errors=errors, cuts=list(cuts), maxread=maxread))
     acc.states += 1
@@ -189,5 +221,5 @@ def replay(spec):
     obs, viol = run_case(task, enc, raw, spec['errors'], tuple(spec['cuts']), spec['maxread'])
     out = {'observation': {k: repr(v) for k, v in obs.items()}, 'violation': None}
     if viol:
-        out['violation'] = {'key': '%s:%s:%s:%s' % (task['transport'], enc, spec['errors'], viol[0]), 'msg': viol[1]}
+        out['violation'] = {'key': '%s%s:%s:%s:%s' % (task['transport'], '+asyncio' if task.get('aio') else '', enc, spec['errors'], viol[0]), 'msg': viol[1]}
     return out
